@@ -513,34 +513,35 @@ func buildEntry(ot byte, f int) (cls string, b []byte) {
 	return "ok", b
 }
 
+// entryObs: mp4.DecodeBox (kind ED) / mp4.DecodeBoxSR (kind ES) on the bytes of an mp4a entry, projected
+func entryObs(kind string, b []byte) string {
+	var box mp4.Box
+	var err error
+	p := hx.Try(func() {
+		if kind == "ED" {
+			box, err = mp4.DecodeBox(0, bytes.NewReader(hx.Exact(b)))
+		} else {
+			box, err = mp4.DecodeBoxSR(0, bits.NewFixedSliceReader(hx.Exact(b)))
+		}
+	})
+	switch {
+	case p != "":
+		return "panic"
+	case err != nil:
+		return "err"
+	}
+	e, ok := box.(*mp4.AudioSampleEntryBox)
+	if !ok || e.Esds == nil || e.Esds.DecConfigDescriptor == nil || e.Esds.DecConfigDescriptor.DecSpecificInfo == nil {
+		return "other"
+	}
+	dc := e.Esds.DecConfigDescriptor.DecSpecificInfo.DecConfig
+	cls, a := decodeASC(dc)
+	return fmt.Sprintf("ok/%d/%d/%d/%d/%s/%s", e.DataReferenceIndex, e.ChannelCount, e.SampleSize, e.SampleRate, hx.Hex(dc), ascObs(cls, a))
+}
+
 func emitED(b []byte) {
 	for _, kind := range []string{"ED", "ES"} {
-		var box mp4.Box
-		var err error
-		obs := ""
-		p := hx.Try(func() {
-			if kind == "ED" {
-				box, err = mp4.DecodeBox(0, bytes.NewReader(hx.Exact(b)))
-			} else {
-				box, err = mp4.DecodeBoxSR(0, bits.NewFixedSliceReader(hx.Exact(b)))
-			}
-		})
-		switch {
-		case p != "":
-			obs = "panic"
-		case err != nil:
-			obs = "err"
-		default:
-			e, ok := box.(*mp4.AudioSampleEntryBox)
-			if !ok || e.Esds == nil || e.Esds.DecConfigDescriptor == nil || e.Esds.DecConfigDescriptor.DecSpecificInfo == nil {
-				obs = "other"
-			} else {
-				dc := e.Esds.DecConfigDescriptor.DecSpecificInfo.DecConfig
-				cls, a := decodeASC(dc)
-				obs = fmt.Sprintf("ok/%d/%d/%d/%d/%s/%s", e.DataReferenceIndex, e.ChannelCount, e.SampleSize, e.SampleRate, hx.Hex(dc), ascObs(cls, a))
-			}
-		}
-		fmt.Fprintf(out, "%s\t%s\t%s\t%s\n", kind, nextID(strings.ToLower(kind)), hx.Hex(b), obs)
+		fmt.Fprintf(out, "%s\t%s\t%s\t%s\n", kind, nextID(strings.ToLower(kind)), hx.Hex(b), entryObs(kind, b))
 	}
 }
 
@@ -907,6 +908,31 @@ func replay(site, witness string) {
 			checkADTS(aac.ADTSHeader{ID: byte(a), ObjectType: byte(b), SamplingFrequencyIndex: byte(c), ChannelConfig: byte(d),
 				HeaderLength: byte(e), PayloadLength: uint16(f), BufferFullness: uint16(g)}, hx.UnHex(junk), hx.UnHex(rest))
 		}
+	case strings.HasPrefix(witness, "B:"):
+		checkHistory(parseOps(witness))
+	case strings.HasPrefix(witness, "asc-stream="):
+		var cfgs []*aac.AudioSpecificConfig
+		for _, t := range strings.Split(strings.TrimPrefix(witness, "asc-stream="), ";") {
+			p := strings.Split(t, "/")
+			if len(p) == 4 {
+				ot, _ := strconv.Atoi(p[0])
+				ch, _ := strconv.Atoi(p[1])
+				cfgs = append(cfgs, canonicalASC(byte(ot), byte(ch), int(hx.ParseHexI(p[2])), int(hx.ParseHexI(p[3]))))
+			}
+		}
+		checkASCStream(cfgs)
+	case strings.HasPrefix(witness, "adts-stream="):
+		var items []hsItem
+		for _, t := range strings.Split(strings.TrimPrefix(witness, "adts-stream="), ";") {
+			p := strings.SplitN(t, ":", 2)
+			if len(p) == 2 {
+				if _, err := fmt.Sscanf(p[1], "%d/%d/%d/%d/%d/%d/%d", &a, &b, &c, &d, &e, &f, &g); err == nil {
+					items = append(items, hsItem{hx.UnHex(p[0]), aac.ADTSHeader{ID: byte(a), ObjectType: byte(b), SamplingFrequencyIndex: byte(c),
+						ChannelConfig: byte(d), HeaderLength: byte(e), PayloadLength: uint16(f), BufferFullness: uint16(g)}})
+				}
+			}
+		}
+		checkADTSStream(items)
 	default:
 		fmt.Fprintf(out, "cannot parse witness %q for site %s\n", witness, site)
 	}
@@ -941,6 +967,12 @@ func main() {
 		if *part == "all" || *part == "bits" {
 			corrBits(hx.NewRng(*seed*4+4), *n*10)
 		}
+		if *part == "all" || *part == "hist" {
+			corrHistory(hx.NewRng(*seed*8+5), *n, thorough)
+		}
+		if *part == "all" || *part == "streams" {
+			corrStreams(hx.NewRng(*seed*8+6), *n, thorough)
+		}
 	case "search":
 		if *part == "all" || *part == "asc" {
 			searchASC(hx.NewRng(*seed*4+1), *n, thorough)
@@ -953,6 +985,14 @@ func main() {
 		if *part == "all" || *part == "entry" {
 			searchEntry(hx.NewRng(*seed*4+3), *n, thorough)
 			fmt.Fprintf(out, "PART\tentry\t%d\n", evals)
+		}
+		if *part == "all" || *part == "hist" {
+			searchHistory(hx.NewRng(*seed*8+5), *n, thorough)
+			fmt.Fprintf(out, "PART\thist\t%d\n", evals)
+		}
+		if *part == "all" || *part == "streams" {
+			searchStreams(hx.NewRng(*seed*8+6), *n, thorough)
+			fmt.Fprintf(out, "PART\tstreams\t%d\n", evals)
 		}
 		fmt.Fprintf(out, "EVALS\t%d\n", evals)
 		fmt.Fprintf(out, "DISTINCT\t%d\n", len(distinctSet)+bulkDistinct)
